@@ -156,7 +156,7 @@ func opsGen(g *Gen) any {
 			qs = append(qs, M{"kind": "parametersFor", "id": id, "cb": false, "script": []any{}})
 		}
 	}
-	qs = append(qs, M{"kind": "ids"}, M{"kind": "methodPaths"})
+	qs = append(qs, M{"kind": "ids"}, M{"kind": "methodPaths"}, M{"kind": "required"})
 	for _, t := range opTags {
 		for _, k := range []string{"consumesFor", "producesFor", "secReqFor", "secDefsFor"} {
 			qs = append(qs, M{"kind": k, "op": t})
@@ -243,6 +243,11 @@ func opsImpl(in any) any {
 			a = protect(func() any { return sortedStrings(an.OperationIDs()) })
 		case "methodPaths":
 			a = protect(func() any { return sortedStrings(an.OperationMethodPaths()) })
+		case "required":
+			// required media types and security schemes: the unions over the document and its operations
+			a = protect(func() any {
+				return []any{sortedStrings(an.RequiredConsumes()), sortedStrings(an.RequiredProduces()), sortedStrings(an.RequiredSecuritySchemes())}
+			})
 		case "consumesFor", "producesFor", "secReqFor", "secDefsFor":
 			op := findOpByTag(sw, get(q, "op"))
 			if op == nil {
@@ -322,7 +327,7 @@ func opsImpl(in any) any {
 	return M{"ok": answers}
 }
 
-var c14Kinds = map[string]bool{"opFor": true, "opForName": true, "ids": true, "methodPaths": true, "consumesFor": true, "producesFor": true, "secReqFor": true, "secDefsFor": true, "secDefsForReqs": true}
+var c14Kinds = map[string]bool{"required": true, "opFor": true, "opForName": true, "ids": true, "methodPaths": true, "consumesFor": true, "producesFor": true, "secReqFor": true, "secDefsFor": true, "secDefsForReqs": true}
 
 func opsCompare(c *Case, out any) []Finding {
 	var fs []Finding
